@@ -4,7 +4,7 @@
 // the Bitcask engine).  The map is threaded as ghost state (rule R-ghost-arg) because the trait methods take &self.
 pub struct KvModel { pub ghost map: Map<Seq<u8>, Seq<u8>> }
 
-pub trait KeyValueStorage: Sized {
+pub trait KeyValueStorage: Sized + Clone {
     type Error: Into<anyhow::Error>;
     fn set(&self, key: Bytes, value: Bytes, Tracked(m): Tracked<&mut KvModel>) -> (r: Result<(), Self::Error>)
         ensures r is Ok ==> final(m).map == old(m).map.insert(bv(key), bv(value));
@@ -61,3 +61,28 @@ pub axiom fn axiom_vec_len_isize<T>(v: &Vec<T>)
     ensures v@.len() <= isize::MAX;
 pub assume_specification [Bytes::is_empty] (b: &Bytes) -> (r: bool)
     ensures r == (bv(*b).len() == 0);
+
+// ---- what Handler (server.rs) holds besides the connection and the engine
+impl Shutdown {
+    /// ghost: the shutdown signal has been received
+    pub uninterp spec fn fired(&self) -> bool;
+    /// crate::shutdown::Shutdown::is_shutdown: whether the shutdown signal has been received
+    #[verifier::external_body]
+    pub fn is_shutdown(&self) -> (r: bool) ensures r == self.fired() { unimplemented!() }
+    /// crate::shutdown::Shutdown::recv: returns once the signal has arrived
+    #[verifier::external_body]
+    pub async fn recv(&mut self) -> (r: ()) ensures final(self).fired() { unimplemented!() }
+}
+pub struct Semaphore { k: usize }
+pub mod mpsc {
+    #[verifier::external_body]
+    #[verifier::reject_recursive_types(T)]
+    pub struct Sender<T> { k: usize, p: core::marker::PhantomData<T> }
+}
+/// rule R-select: which arm of a tokio::select! runs
+#[verifier::external_body]
+pub fn verif_select(n: usize) -> (r: usize) ensures r < n { unimplemented!() }
+
+/// ghost transcript of one Handler::run: what has been written so far, how many requests were answered, and
+/// whether the loop ended because the client closed the stream (clean_end) / the shutdown signal had been received (stopped)
+pub struct RunGhost { pub ghost out: Seq<u8>, pub ghost served: nat, pub ghost clean_end: bool, pub ghost stopped: bool }
